@@ -9,12 +9,15 @@ import (
 	"go/ast"
 	"go/parser"
 	"go/token"
+	"go/types"
 	"os"
 	"os/exec"
 	"path/filepath"
 	"sort"
 	"strconv"
 	"strings"
+
+	"golang.org/x/tools/go/packages"
 )
 
 // depDir returns the source directory of a dependency module of /repo.
@@ -54,17 +57,43 @@ func init() {
 		if err != nil {
 			return "", err
 		}
-		// the renamer must still take its reserved words from js.Keywords
-		fd, err := r.FindFunc("js", "", "newRenamer")
+		// the renamer must still take its reserved words from js.Keywords: some `range` in newRenamer iterates over that
+		// variable of the dependency — named through any import name, or handed through a local in-repo function whose body
+		// is a single `return` of it (resolved with go/types, so a rename or a helper does not matter)
+		te, err := r.TEnv()
 		if err != nil {
 			return "", err
 		}
+		fd, p, err := te.FuncDecl("js", "", "newRenamer")
+		if err != nil {
+			return "", err
+		}
+		var isKeywords func(p *packages.Package, x ast.Expr, depth int) bool
+		isKeywords = func(p *packages.Package, x ast.Expr, depth int) bool {
+			x = unparen(x)
+			switch v := x.(type) {
+			case *ast.Ident, *ast.SelectorExpr:
+				id, _ := v.(*ast.Ident)
+				if s, ok := v.(*ast.SelectorExpr); ok {
+					id = s.Sel
+				}
+				o, ok := p.TypesInfo.Uses[id].(*types.Var)
+				return ok && o.Name() == "Keywords" && o.Pkg() != nil && o.Pkg().Path() == "github.com/tdewolff/parse/v2/js" && o.Parent() == o.Pkg().Scope()
+			case *ast.CallExpr:
+				if fn := calleeOf(p.TypesInfo, v); fn != nil && depth < 4 {
+					if ref, ok := te.funcIndex()[fn]; ok && ref.decl.Body != nil && len(ref.decl.Body.List) == 1 {
+						if ret, ok := ref.decl.Body.List[0].(*ast.ReturnStmt); ok && len(ret.Results) == 1 {
+							return isKeywords(ref.pkg, ret.Results[0], depth+1)
+						}
+					}
+				}
+			}
+			return false
+		}
 		usesKeywords := false
 		ast.Inspect(fd, func(n ast.Node) bool {
-			if rs, ok := n.(*ast.RangeStmt); ok {
-				if sel, ok := rs.X.(*ast.SelectorExpr); ok && sel.Sel.Name == "Keywords" {
-					usesKeywords = true
-				}
+			if rs, ok := n.(*ast.RangeStmt); ok && isKeywords(p, rs.X, 0) {
+				usesKeywords = true
 			}
 			return true
 		})
